@@ -115,6 +115,7 @@ with frag_stmt (k : nat) (sc : list N) (s : stmt) {struct k} : option (list N) :
       | SLoop cond body _ =>
           if noexit_expr k cond && frag_expr k sc cond && is_some (frag_stmts k sc body) then Some sc else None
       | SBreak _ | SContinue _ => Some sc
+      | SRet (Some value) _ => if frag_expr k sc value then Some sc else None      (* early return *)
       | _ => None
       end
   end
@@ -192,7 +193,7 @@ Fixpoint frag_items (pv sv bound : N) (k : nat) (scg : list N) (fl : list (N * n
       end
   end.
 
-(* STAGE 3b (stage 3a + top-level functions and their calls, recursion included):
+(* STAGE 4a (stage 3b + early return `ret e`; stage 3b = stage 3a + top-level functions and their calls, recursion included):
    the outer statements are  `print` external ; global definitions ; `start :: fn do ... end`  in this order, start
    last.  A global definition is  g :: e  (e an expression of the fragment over the earlier globals and functions) or
    f :: fn p1: T1, ..., pn: Tn -> T do ... end  (a function: its body sees the earlier globals, the earlier functions,
@@ -200,13 +201,15 @@ Fixpoint frag_items (pv sv bound : N) (k : nat) (scg : list N) (fl : list (N * n
    The body of a function or of start (and the branches of if-expressions anywhere) consists of
      - definitions (constant or mutable) of int/bool-valued expressions, expression statements, nested blocks,
      - assignments  x = e, x += e, x -= e, x *= e  to variables in scope (parameters, locals and global values),
+     - `ret e` anywhere in a function or in start (inside if-branches and loops too): the call ends with the value of e,
      - loops `loop c do ... end` with break and continue; the condition c contains no if-expression
        (noexit_expr; since /repo fcfe8d3 the type checker rejects break/continue in a loop condition, so
        this is implied by acceptance for what matters: no break/continue can leave the condition);
    expressions are int and bool literals, reads of variables in scope, + - *, the six comparisons,
    <=> (assert-equal), and/or/not, unary minus, calls print(e), calls f(e1, ..., en) of top-level functions by
    name, and if/elif/else expressions and statements whose branches are statement lists.
-   NOT in the fragment: `ret`, functions as values (closures, lambdas, nested functions), blobs, tuples, lists,
+   NOT in the fragment: `ret` without a value (it returns Sylt's nil, the table __NIL), functions as values
+   (closures, lambdas, nested functions), blobs, tuples, lists,
    enums/case, floats, strings, division. *)
 Definition frag (k : nat) (r : resolved) : bool :=
   let bound := N.of_nat (length (r_vars r)) + 1 in
